@@ -46,6 +46,7 @@ pub enum Event {
     SomeStr(String),
     SomeBytes(Vec<u8>),
     SeqOfBytes(Vec<u8>),
+    SeqOfBytesHinted(Vec<u8>, usize),
     EmptyMap,
     NewtypeStr(String),
     NewtypeBytes(Vec<u8>),
@@ -71,6 +72,7 @@ impl Event {
             Event::SomeStr(_) => "some(str)",
             Event::SomeBytes(_) => "some(bytes)",
             Event::SeqOfBytes(_) => "seq",
+            Event::SeqOfBytesHinted(_, _) => "seq(size_hint)",
             Event::EmptyMap => "map",
             Event::NewtypeStr(_) => "newtype(str)",
             Event::NewtypeBytes(_) => "newtype(bytes)",
@@ -80,6 +82,7 @@ impl Event {
         match self {
             Event::Str(s) | Event::BorrowedStr(s) | Event::StringOwned(s) | Event::SomeStr(s) | Event::NewtypeStr(s) => json!({"text": s}),
             Event::Bytes(b) | Event::BorrowedBytes(b) | Event::ByteBuf(b) | Event::SomeBytes(b) | Event::SeqOfBytes(b) | Event::NewtypeBytes(b) => json!({"bytes": hex(b)}),
+            Event::SeqOfBytesHinted(b, h) => json!({"bytes": hex(b), "size_hint": h}),
             other => json!(format!("{other:?}")),
         }
     }
@@ -108,6 +111,8 @@ pub struct Mock<'a> {
 struct ByteSeq<'a> {
     data: &'a [u8],
     pos: usize,
+    /// what size_hint() answers (advisory in serde; may be absent or wrong)
+    hint: Option<usize>,
 }
 impl<'de, 'a> SeqAccess<'de> for ByteSeq<'a> {
     type Error = MockError;
@@ -118,6 +123,9 @@ impl<'de, 'a> SeqAccess<'de> for ByteSeq<'a> {
         let b = self.data[self.pos];
         self.pos += 1;
         seed.deserialize(b.into_deserializer()).map(Some)
+    }
+    fn size_hint(&self) -> Option<usize> {
+        self.hint.map(|h| h.saturating_sub(self.pos))
     }
 }
 
@@ -139,7 +147,8 @@ impl<'de, 'a: 'de> Mock<'a> {
             Event::Unit => visitor.visit_unit(),
             Event::None => visitor.visit_none(),
             Event::SomeStr(_) | Event::SomeBytes(_) => visitor.visit_some(self.inner()),
-            Event::SeqOfBytes(b) => visitor.visit_seq(ByteSeq { data: b, pos: 0 }),
+            Event::SeqOfBytes(b) => visitor.visit_seq(ByteSeq { data: b, pos: 0, hint: Option::None }),
+            Event::SeqOfBytesHinted(b, h) => visitor.visit_seq(ByteSeq { data: b, pos: 0, hint: Some(*h) }),
             Event::EmptyMap => visitor.visit_map(de::value::MapDeserializer::<std::iter::Empty<(u8, u8)>, MockError>::new(std::iter::empty())),
             Event::NewtypeStr(_) | Event::NewtypeBytes(_) => visitor.visit_newtype_struct(self.inner()),
         }
@@ -236,6 +245,9 @@ where
             let v = binary_parser::<V>(b);
             (v, v)
         }
+        // a compact format without a byte-string type hands the binary form over as a sequence of u8: the impl may
+        // reject that outright (it does at the pinned commit) or read it, but then exactly as the binary parser would
+        (false, Event::SeqOfBytes(b)) | (false, Event::SeqOfBytesHinted(b, _)) => (Option::None, binary_parser::<V>(b)),
         _ => (Option::None, Option::None),
     };
     match (&res, must_accept, may_accept) {
@@ -340,6 +352,9 @@ pub fn events_for<V: Variant>() -> Vec<Event> {
             evs.push(Event::ByteBuf(b.clone()));
             evs.push(Event::Str(String::from_utf8_lossy(&b).into_owned()));
             evs.push(Event::SeqOfBytes(b.clone()));
+            evs.push(Event::SeqOfBytesHinted(b.clone(), b.len()));
+            evs.push(Event::SeqOfBytesHinted(b.clone(), V::SIZE));
+            evs.push(Event::SeqOfBytesHinted(b.clone(), 0));
             evs.push(Event::SomeBytes(b.clone()));
             evs.push(Event::NewtypeBytes(b.clone()));
         }
